@@ -70,15 +70,15 @@ class Ref:
     def remove(self, ns, kind, name):
         if ns not in self.t:
             return
-        own = self.t[ns][kind].get(name)
-        for k in ([kind, 'decls'] if kind in DECLK else [kind]):
-            if name in self.t[ns][k]:
-                old = self.t[ns][k].pop(name)
-                if old is not None:
-                    if k == 'decls' and old is not own:
-                        self.cross_removed.add(id(old))     # e.g. remove_var(x) while decls[x] is a function
-                    else:
-                        self.removed.add(id(old))
+        tab = self.t[ns]
+        if name not in tab[kind]:
+            return
+        own = tab[kind].pop(name)
+        if own is not None:
+            self.removed.add(id(own))
+        # the shared declaration table loses the name only when it still holds this very declaration
+        if kind in DECLK and name in tab['decls'] and tab['decls'][name] is own:
+            tab['decls'].pop(name)
 
     def drop(self, ns):
         if ns in self.t:
